@@ -160,6 +160,74 @@ func (l *Lifter) dateAlt(s *ast.IfStmt, put func(ast.Stmt) (string, ast.Expr, bo
 	return Item{Kind: KScalar, Prim: prim, Operand: l.op(recv), Pos: s.Pos()}, true
 }
 
+// dateBlock recognises the same write with the value hoisted into a local:
+//
+//	{ var t int64; if !(x).IsZero() { t = f(x) }; put(t) }
+//
+// — 0 for the zero time, f(x) otherwise.
+func (l *Lifter) dateBlock(b *ast.BlockStmt, put func(ast.Stmt) (string, ast.Expr, bool)) (Item, bool) {
+	if len(b.List) != 3 {
+		return Item{}, false
+	}
+	ds, ok := b.List[0].(*ast.DeclStmt)
+	if !ok {
+		return Item{}, false
+	}
+	gd, ok := ds.Decl.(*ast.GenDecl)
+	if !ok || gd.Tok != token.VAR || len(gd.Specs) != 1 {
+		return Item{}, false
+	}
+	vs, ok := gd.Specs[0].(*ast.ValueSpec)
+	if !ok || len(vs.Names) != 1 || len(vs.Values) != 0 || vs.Type == nil || Canon(vs.Type) != "int64" {
+		return Item{}, false
+	}
+	tname := vs.Names[0].Name
+	ifs, ok := b.List[1].(*ast.IfStmt)
+	if !ok || ifs.Init != nil || ifs.Else != nil || len(ifs.Body.List) != 1 {
+		return Item{}, false
+	}
+	u, ok := unparen(ifs.Cond).(*ast.UnaryExpr)
+	if !ok || u.Op != token.NOT {
+		return Item{}, false
+	}
+	recv, c, ok := methodCall(unparen(u.X), "IsZero")
+	if !ok || len(c.Args) != 0 {
+		return Item{}, false
+	}
+	as, ok := ifs.Body.List[0].(*ast.AssignStmt)
+	if !ok || as.Tok != token.ASSIGN || len(as.Lhs) != 1 || len(as.Rhs) != 1 || !l.isIdent(as.Lhs[0], tname) {
+		return Item{}, false
+	}
+	stem, val, ok := put(b.List[2])
+	if !ok || stem != "Int64" || !l.isIdent(val, tname) {
+		return Item{}, false
+	}
+	vb := as.Rhs[0]
+	mentions := false
+	ast.Inspect(vb, func(n ast.Node) bool {
+		if e, ok := n.(ast.Expr); ok && l.op(e) == l.op(recv) {
+			mentions = true
+		}
+		return true
+	})
+	if !mentions {
+		return Item{}, false
+	}
+	prim := "Date"
+	std := false
+	if be, ok := unparen(vb).(*ast.BinaryExpr); ok && be.Op == token.QUO {
+		if n, ok := intLit(be.Y); ok && n == 100 {
+			if r2, c2, ok := methodCall(be.X, "UnixNano"); ok && len(c2.Args) == 0 && l.op(r2) == l.op(recv) {
+				std = true
+			}
+		}
+	}
+	if !std {
+		prim = "Date<ticks = " + strings.ReplaceAll(Canon(vb), Canon(recv), "t") + ">"
+	}
+	return Item{Kind: KScalar, Prim: prim, Operand: l.op(recv), Pos: b.Pos()}, true
+}
+
 func (l *Lifter) unknown(s ast.Node) Item {
 	return Item{Kind: KUnknown, Text: strings.Join(strings.Fields(l.Src(s)), " "), Pos: s.Pos()}
 }
@@ -514,6 +582,18 @@ func (l *Lifter) bwBlock(stmts []ast.Stmt, cur *cursor, top bool) []Item {
 			}
 			items = append(items, it)
 			continue
+		case *ast.BlockStmt:
+			if it, ok := l.dateBlock(x, func(st ast.Stmt) (string, ast.Expr, bool) {
+				stem, val, off, ok := l.bwPutStmt(st)
+				if ok && !off.IsZero() {
+					return "", nil, false
+				}
+				return stem, val, ok
+			}); ok {
+				l.bwWrite(cur, Const(0), it)
+				items = append(items, it)
+				continue
+			}
 		case *ast.IfStmt:
 			if it, ok := l.dateAlt(x, func(st ast.Stmt) (string, ast.Expr, bool) {
 				stem, val, off, ok := l.bwPutStmt(st)
@@ -700,6 +780,11 @@ func (l *Lifter) swBlock(stmts []ast.Stmt, top bool) []Item {
 			}
 			items = append(items, it)
 			continue
+		case *ast.BlockStmt:
+			if it, ok := l.dateBlock(x, func(st ast.Stmt) (string, ast.Expr, bool) { return l.swPutStmt(st) }); ok {
+				items = append(items, it)
+				continue
+			}
 		case *ast.IfStmt:
 			if it, ok := l.dateAlt(x, func(st ast.Stmt) (string, ast.Expr, bool) { return l.swPutStmt(st) }); ok {
 				items = append(items, it)
